@@ -213,15 +213,23 @@ func genConfig(r *rand.Rand) (config, []string) {
 		for k := 0; k < n; k++ {
 			z := int64(i*10 + k)
 			switch x := r.Intn(100); {
+			case x < 7: // a MessageBatch: one call posts its parts and then itself
+				np := 1 + r.Intn(3)
+				b := pmsg{kind: 'B', z: z}
+				for q := 0; q < np; q++ {
+					b.parts = append(b.parts, int64(i*10+k)*100+int64(q)+1000)
+				}
+				prog = append(prog, b)
+				tags = append(tags, "cfg-batch")
 			case x < 62:
-				prog = append(prog, pmsg{'U', z})
+				prog = append(prog, pmsg{kind: 'U', z: z})
 			case x < 78:
-				prog = append(prog, pmsg{'O', z})
+				prog = append(prog, pmsg{kind: 'O', z: z})
 			case x < 90:
-				prog = append(prog, pmsg{'S', 0})
+				prog = append(prog, pmsg{kind: 'S'})
 				suspends++
 			default:
-				prog = append(prog, pmsg{'R', 0})
+				prog = append(prog, pmsg{kind: 'R'})
 			}
 		}
 		c.progs = append(c.progs, prog)
@@ -230,9 +238,9 @@ func genConfig(r *rand.Rand) (config, []string) {
 		tags = append(tags, "cfg-suspend")
 		if r.Intn(5) > 0 { // usually somebody resumes later
 			i := r.Intn(np)
-			c.progs[i] = append(c.progs[i], pmsg{'R', 0})
+			c.progs[i] = append(c.progs[i], pmsg{kind: 'R'})
 			if r.Intn(2) == 0 {
-				c.progs[i] = append(c.progs[i], pmsg{'U', int64(i*10 + 9)})
+				c.progs[i] = append(c.progs[i], pmsg{kind: 'U', z: int64(i*10 + 9)})
 			}
 		}
 	}
@@ -378,14 +386,16 @@ func dfs(spec dfsSpec, emit func(res result, complete bool)) (runs int, complete
 	}
 }
 
-func u(z int64) pmsg { return pmsg{'U', z} }
+func u(z int64) pmsg { return pmsg{kind: 'U', z: z} }
 
 var (
-	mS = pmsg{'S', 0}
-	mR = pmsg{'R', 0}
+	mS = pmsg{kind: 'S'}
+	mR = pmsg{kind: 'R'}
 )
 
-func o(z int64) pmsg { return pmsg{'O', z} }
+func o(z int64) pmsg { return pmsg{kind: 'O', z: z} }
+
+func bt(z int64, parts ...int64) pmsg { return pmsg{kind: 'B', z: z, parts: parts} }
 
 func dfsSpecs(tier string) []dfsSpec {
 	T, F := true, false
@@ -398,6 +408,7 @@ func dfsSpecs(tier string) []dfsSpec {
 			{"2x1-sys", config{[][]pmsg{{o(1)}, {u(11)}}, nil, 99}, 2, 60, 5000},
 			{"suspend-resume", config{[][]pmsg{{mS, u(1)}, {mR}}, nil, 99}, 1, 60, 200},
 			{"1x3-throughput0", config{[][]pmsg{{u(1), u(2), u(3)}}, nil, 0}, 1, 60, 300},
+			{"batch+late", config{[][]pmsg{{bt(3, 1, 2)}, {u(11)}}, nil, 99}, 2, 80, 3000},
 			{"2x2-throughput1", config{[][]pmsg{{u(1), u(2)}, {u(11), u(12)}}, nil, 1}, 1, 60, 600},
 		}
 	}
@@ -416,6 +427,8 @@ func dfsSpecs(tier string) []dfsSpec {
 		{"2x2", config{[][]pmsg{{u(1), u(2)}, {u(11), u(12)}}, nil, 99}, 2, 100, 40000},
 		{"2x2+sys+pause", config{[][]pmsg{{u(1), o(2)}, {u(11), u(12)}}, []bool{F, F, F, T}, 99}, 2, 100, 30000},
 		{"1x3-throughput0", config{[][]pmsg{{u(1), u(2), u(3)}}, nil, 0}, 3, 80, 20000},
+		{"batch+late", config{[][]pmsg{{bt(3, 1, 2)}, {u(11)}}, nil, 99}, 3, 100, 30000},
+		{"batch-then-post", config{[][]pmsg{{bt(2, 1), u(4)}}, nil, 99}, -1, 100, 30000},
 		{"2x2-throughput1", config{[][]pmsg{{u(1), u(2)}, {u(11), u(12)}}, nil, 1}, 2, 100, 20000},
 		{"1x4+sys-throughput2", config{[][]pmsg{{u(1), o(2), u(3), u(4)}}, nil, 2}, 2, 100, 20000},
 	}
@@ -493,9 +506,9 @@ func Run(cfg *hx.Config) error {
 			var prog []pmsg
 			for k := 0; k < n/np+1; k++ {
 				if r.Intn(15) == 0 {
-					prog = append(prog, pmsg{'O', int64(p*1000 + k)})
+					prog = append(prog, pmsg{kind: 'O', z: int64(p*1000 + k)})
 				} else {
-					prog = append(prog, pmsg{'U', int64(p*1000 + k)})
+					prog = append(prog, pmsg{kind: 'U', z: int64(p*1000 + k)})
 				}
 			}
 			conf.progs = append(conf.progs, prog)
